@@ -6,7 +6,10 @@ From XV Require Import Gen.GenScannerFields C15.Classify15 C15.Model15 C15.Proof
 Import ListNotations.
 Local Open Scope string_scope.
 
-(** GENERATED OBLIGATION.  For every inventory (the four scanners, ReaderMgr, ElemStack, ValidationContextImpl):
+(** GENERATED OBLIGATION.  For every inventory (the four scanners, ReaderMgr, ElemStack, ValidationContextImpl, the parser
+    objects AbstractDOMParser / DOMLSParserImpl / SAXParser / SAX2XMLReaderImpl with their parse() prologue and
+    reset()/resetDocument(), and the objects a scanReset resets by a call: GrammarResolver, IdentityConstraintHandler,
+    ValueStoreCache, SchemaValidator):
     member names are unique, every member is classified, no Config member is written by the reset code,
     every PerParse member is reset, and to a value that reads configuration only -- except the members listed
     in [Classify15.exceptions] (recorded findings).  A member added to a class, a line deleted from a
@@ -22,7 +25,8 @@ Print Assumptions T15_exceptions_live.
 (** the four scanners are among the inventories (non-vacuity of the obligation above) *)
 Example T15_inventories_present :
   map fst all_inventories = ["IGXMLScanner"; "WFXMLScanner"; "DGXMLScanner"; "SGXMLScanner"; "ReaderMgr"; "ElemStack";
-                             "ValidationContextImpl"]
+                             "ValidationContextImpl"; "AbstractDOMParser"; "DOMLSParserImpl"; "SAXParser"; "SAX2XMLReaderImpl";
+                             "GrammarResolver"; "IdentityConstraintHandler"; "ValueStoreCache"; "SchemaValidator"]
   /\ (60 <= length inv_WFXMLScanner)%nat /\ (90 <= length inv_IGXMLScanner)%nat.
 Proof. vm_compute. repeat split; repeat constructor. Qed.
 
